@@ -38,6 +38,9 @@ def gen_case(rng, tier, damaged, single_ok=True):
             "via": rng.choice(["lib", "lib", "cli", "cli-check"]), "form": rng.choice(["root", "parent"]),
             "order_seed": rng.randrange(1 << 20), "damage": [],
             "prelude": rng.randrange(1, 1 << 30) if rng.random() < 0.3 else None}
+    if rng.random() < 0.2:
+        # the content path as a user may type it: trailing / doubled separator, dot segment, relative to the cwd
+        case["spell"] = rng.choice(["trailing-slash", "dot-segment", "double-sep", "relative"])
     if enc[0] == "tool" and rng.random() < 0.3:
         from .meta_family import gen_request
         steps = []
@@ -254,6 +257,9 @@ def observe(case, scratch):
     ref = rt.recheck(raw, root)
     obs["ref"] = ref
     target = root if case["form"] == "root" else base
+    if case.get("spell"):
+        from .create_family import spelled
+        target = spelled(case, target)
     if case["via"] == "lib":
         oc = drive.recheck_lib(mpath, target)
     else:
@@ -296,6 +302,8 @@ def _common_result(case, obs, viol, counters, sample_extra=None):
         counters["cases_with_edited_metafile"] = 1
     if case["tree"]["layout"] == "large-pieces":
         counters["cases_with_megabyte_pieces"] = 1
+    if case.get("spell"):
+        counters["content_path_spelled_cases"] = 1
     sample = {"files": [[f[0], f[1]] for f in case["tree"]["files"][:8]], "piece_length": 2 ** case["pl_exp"],
               "version": case["version"], "encoder": case["encoder"], "via": case["via"], "form": case["form"],
               "damage": case["damage"], "tool_result": obs.get("tool_result"),
